@@ -478,7 +478,7 @@ def sources_of_failure(cv, f, classes, cr_current):
         # the IN / NOT IN atom; the model (IN = OR of =) reproduces the implementation when that atom is read as "true"
         if f.get("path") == 1 and any(a["o"] in ("in", "notin") for a in atoms_of(x, [])) and opi in getattr(cv, "in_true_ops", ()):
             src.add(F_IN)
-        if dups:
+        if dups and getattr(cv, "dup_manifest", False):
             src.add(F_DUP)
         if not src:
             src.add(None)
@@ -570,7 +570,7 @@ def main(ck):
         return
     ck.log("harness built")
     files = sorted(glob.glob(os.path.join(ck.verif, "corpus", "C10", "*.case")))
-    n = 140 if ck.tier == "quick" else 2500
+    n = 120 if ck.tier == "quick" else 2500
     if getattr(ck, "replay", None):
         rp = json.load(open(ck.replay))
         p = os.path.join(ck.work, "replay.case")
@@ -827,6 +827,8 @@ def main(ck):
         corr_ok = evaluated and bool(matching)
         v_cur, v_rep = variants.get((True, True, True), []), variants.get((False, False, False), [])
         cr_current = bool(matching) and all(k[2] for k in matching)
+        # the unflushed-cache-clear defect took effect in this case: only the lookup-as-before-ce36ae7 variants reproduce it
+        cv.dup_manifest = bool(matching) and all(k[0] for k in matching) and any(not k[0] for k in variants)
         cv.in_true_ops = set()
         for kk in matching:
             cv.in_true_ops |= {b for b, code in variants[kk] if code == 30}
